@@ -1,6 +1,7 @@
 """C06 — performance MIDI export and import preserve notes, controls and timing."""
 from ..rules import generic as G
 from ..rules import midi as M
+from ..rules import extra as X
 
 EXPLANATION = (
     "Static analysis of save_performance_midi / load_performance_midi / adjust_time. Decides: (F7a) every accepted input "
@@ -23,6 +24,7 @@ ENTRY = ["partitura.io.exportmidi:save_performance_midi", "partitura.io.importmi
 def run(ctx):
     G.rule_F7a(ctx, [ctx.prog.func(q) for q in ENTRY])
     M.rule_F7h_tempo(ctx)
+    X.rule_no_order_read_before_sort(ctx)
     M.rule_clock_agreement(ctx)
     M.rule_F10(ctx, "partitura.io.exportmidi:save_performance_midi", "ppq", 7)
     M.rule_note_pairing(ctx)
